@@ -63,6 +63,33 @@ def r19_1(ctx):
            'bare `except:` / `except BaseException:`' if all_exc else
            'the catch-all is `except %s`: a target that raises KeyboardInterrupt escapes _bootstrap and the exit code '
            'depends on the start method' % (ast.unparse(bare[0].type) if bare else '?'))
+    # once the exit code is decided nothing may raise past `return exitcode`: the clean-up in the last `finally`
+    # calls only logging helpers and flush helpers that swallow I/O errors (a broken stdout pipe at exit is common);
+    # an exception there makes the launcher report its default code instead
+    trys = [t for t in fi.node.body if isinstance(t, ast.Try) and t.finalbody]
+    q.need(trys, '_bootstrap has no outer try/finally')
+    last = trys[-1]
+    n_c = 0
+    for c in [x for st in last.finalbody for x in ast.walk(st) if isinstance(x, ast.Call)]:
+        cal = fi.callee(c)
+        if cal in q.LOGGERS or cal.split('.')[-1] in ('info', 'debug', 'sub_debug'):
+            continue
+        if cal in ('str', 'repr', 'len') or not isinstance(c.func, (ast.Name, ast.Attribute)):
+            continue
+        n_c += 1
+        g = m.resolve_func(cal, fi.module) if '.' not in cal else None
+        safe = False
+        if g is not None:
+            body = [s for s in g.node.body if not (isinstance(s, ast.Expr) and isinstance(s.value, ast.Constant))]
+            safe = len(body) == 1 and isinstance(body[0], ast.Try) and any(
+                q.handler_catches(h, ['OSError']) or q.handler_catches(h, ['EnvironmentError']) or
+                h.type is None or ast.unparse(h.type) in ('Exception', 'BaseException') for h in body[0].handlers)
+        ctx.ob('R19.1', '_bootstrap:clean-up-after-the-code-is-decided-cannot-raise#%d' % n_c, safe, fi, c,
+               '%s() swallows I/O errors' % cal if safe else
+               '`%s` in the final clean-up is not known to swallow OSError: when the last flush fails (reader of '
+               'stdout gone, disk full) the exception escapes _bootstrap and the child reports the launcher\'s '
+               'default code instead of the code it decided on' % ast.unparse(c))
+    q.need(n_c >= 1, '_bootstrap: no clean-up call in the final finally')
     rets = [n for n in cfg.where(lambda n: n.kind == 'stmt' and isinstance(n.ast, ast.Return))]
     ok = bool(rets) and all(ast.unparse(n.ast.value) == 'exitcode' for n in rets if n.ast.value is not None) and \
         all(n.ast.value is not None for n in rets)
@@ -358,6 +385,8 @@ def run(ctx):
 _PF = 'billiard/popen_fork.py'
 _PR = 'billiard/process.py'
 MUTANTS = [
+    ('final-flush-can-raise', _PR, "            _maybe_flush(sys.stdout)\n            _maybe_flush(sys.stderr)\n\n        return exitcode\n",
+     "            util._flush_std_streams()\n\n        return exitcode\n", 'R19.1'),
     ('echild-reports-zero', _PF, "                    # Child process not yet created. See #1731717\n                    # e.errno == errno.ECHILD == 10\n                    return None\n",
      "                    if e.errno == errno.ECHILD:\n                        pid, sts = self.pid, 0\n                        break\n                    return None\n", 'R19.2'),
     ('echild-stores-zero', _PF, "                    # Child process not yet created. See #1731717\n                    # e.errno == errno.ECHILD == 10\n                    return None\n",
